@@ -2071,7 +2071,7 @@ impl Connection {
             space.ecn_counters += x;
 
             if x.is_ce() {
-                space.pending_acks.set_immediate_ack_required();
+                space.pending_acks.on_ce_marked();
             }
         }
 
@@ -2914,6 +2914,9 @@ impl Connection {
             }
         }
 
+        self.spaces[packet.header.space()]
+            .pending_acks
+            .on_frames_processed(ack_eliciting);
         if ack_eliciting {
             // In the initial and handshake spaces, ACKs must be sent immediately
             self.spaces[packet.header.space()]
@@ -3230,6 +3233,7 @@ impl Connection {
         }
 
         let space = &mut self.spaces[SpaceId::Data];
+        space.pending_acks.on_frames_processed(ack_eliciting);
         if space
             .pending_acks
             .packet_received(now, number, ack_eliciting, &space.dedup)
